@@ -175,7 +175,8 @@ namespace GeographicLib {
       throw GeographicErr("Min height exceeds max height");
     if (int(_id.size()) != idlength_)
       throw GeographicErr("Invalid ID");
-    if (_nNmodels < 1)
+    if (!(_nNmodels >= 1 && _nNmodels < numeric_limits<int>::max() - 1))
+      // The upper limit ensures that _nNmodels + 1 + _nNconstants fits in an int
       throw GeographicErr("NumModels must be positive");
     if (!(_nNconstants == 0 || _nNconstants == 1))
       throw GeographicErr("NumConstants must be 0 or 1");
@@ -191,7 +192,8 @@ namespace GeographicLib {
                                       real& BX, real& BY, real& BZ,
                                       real& BXt, real& BYt, real& BZt) const {
     t -= _t0;
-    int n = max(min(int(floor(t / _dt0)), _nNmodels - 1), 0);
+    // Clamp before converting to an int (t may be huge, infinite or NaN)
+    int n = int(fmax(real(0), fmin(real(_nNmodels - 1), floor(t / _dt0))));
     bool interpolate = n + 1 < _nNmodels;
     t -= n * _dt0;
     // Components in geocentric basis
@@ -237,7 +239,8 @@ namespace GeographicLib {
 
   MagneticCircle MagneticModel::Circle(real t, real lat, real h) const {
     real t1 = t - _t0;
-    int n = max(min(int(floor(t1 / _dt0)), _nNmodels - 1), 0);
+    // Clamp before converting to an int (t may be huge, infinite or NaN)
+    int n = int(fmax(real(0), fmin(real(_nNmodels - 1), floor(t1 / _dt0))));
     bool interpolate = n + 1 < _nNmodels;
     t1 -= n * _dt0;
     real X, Y, Z, M[Geocentric::dim2_];
